@@ -424,6 +424,26 @@ func run(c *mon.Ctx) {
 			}
 		}
 	}
+	// (2') indexes, union members and slice members at and near the int limits
+	for _, a := range jpspec.ExtremeInts {
+		si++
+		if !c.Mine(si) {
+			continue
+		}
+		c.Cover("extreme-magnitudes")
+		ck.path(jpref.Path{jpspec.Root(), jpspec.Nth(a)}, "extreme-nth", sdata)
+		ck.path(jpref.Path{jpspec.Root(), jpspec.Child("a"), jpspec.Nth(a), jpspec.Nth(0)}, "extreme-nth", sdata)
+		ck.path(jpref.Path{jpspec.Root(), jpspec.Union(a, 0, "a")}, "extreme-union", sdata)
+	}
+	for _, sl := range jpspec.ExtremeSlices() {
+		si++
+		if !c.Mine(si) {
+			continue
+		}
+		c.Cover("extreme-magnitudes")
+		ck.path(jpref.Path{jpspec.Root(), jpspec.Slice(sl...)}, "extreme-slice", sdata)
+		ck.path(jpref.Path{jpspec.Root(), jpspec.Child("a"), jpspec.Slice(sl...), jpspec.Wild()}, "extreme-slice", sdata)
+	}
 	// (3) operator pair matrix in both nestings
 	elems := eqElems()
 	pi := 0
